@@ -292,10 +292,15 @@ def run(ctx, progs):
             from . import c09
             c09.rule_range_form(ctx.ob, prog)
         n, z = rule_zst(ctx.ob, prog)
-        ctx.floor("R18.3.sites", n, 3)
+        # a census of hazards (divisions by / pointer differences over size_of::<T>()): fewer of them is not a lost anchor; that the
+        # census still sees both kinds is what the fixture's positive control shows on every run
+        ctx.floor("R18.3.sites", n, 1)
         ctx.floor("R18.3.zst_types", z, 12)
     ctx.config = "fixture"
-    fixtures.expect(ctx, "c18", lambda rep, fx: rule_zst(rep, fx), {"R18.3.zst_guard"})
+    fired = fixtures.expect(ctx, "c18", lambda rep, fx: rule_zst(rep, fx), {"R18.3.zst_guard"})
+    kinds = {("offset_from" if "offset_from" in i else "division") for i in fired.get("R18.3.zst_guard", [])}
+    ctx.ob("fixture.positive_control", "c18:R18.3.zst_guard.kinds", kinds == {"offset_from", "division"}, "/verif/fixtures/src",
+           f"the hazard census sees both kinds of hazard on the fixture (unguarded division by, and pointer difference over, size_of::<T>()): {sorted(kinds)}")
     ctx.not_decided = ["Xen on-demand behaviour of a zero-length mapping request (device)"]
     return ctx.finish(
         "other",
